@@ -549,6 +549,8 @@ def run_C01(ctx: Ctx) -> Result:
     crash_only = lambda o: {k: v for k, v in o.items() if k == "crash"}   # noqa: E731
     res.merge(streams.genast_stream(rng, ctx.n(800, 8000), crash_only))
     res.merge(streams.pickles_stream([gens.permuted_examples(rng) for _ in range(ctx.n(300, 3000))], crash_only))
+    # compile the corpus and the size-threshold documents too (long runs of steps, wide tables, many examples)
+    res.merge(streams.pickles_stream([d for d in streams.corpus_docs() if not impl.is_existing_path(d)], crash_only))
     return res
 
 
@@ -1066,6 +1068,7 @@ def run_C14(ctx: Ctx) -> Result:
     docs = streams.corpus_docs() + streams.doc_mix(ctx.rng, ctx.n(2000, 20000), noisy=0.5, mutated=0.4)
     docs += ["   # language: xx\nFeature: f\n", "@a b\nFeature: f\n", "Feature: f\n  Scenario: s\n    Given a\n      | a |\n      | a | b |\n"]
     for ws_ in ["\u00a0", "\u3000", "\u2003", "\u2028", "\x85", "\x1f", "\t", "\x0c"]:
+        docs.append(f"@a{ws_}# trailing comment after a blank that is not a space\nFeature: f\n  @b @c{ws_}#x\n  Scenario: s\n")
         docs.append(f"@a{ws_}b\nFeature: f\n")
         docs.append(f"Feature: f\n  @ok @x{ws_}y\n  Scenario: s\n    Given a\n")
     # the same error met several times with other errors in between (look-ahead, then the main loop)
@@ -1453,6 +1456,78 @@ def run_C16(ctx: Ctx) -> Result:
                 if a2 != b2:
                     res.fail("metamorphic", {**case, "transform": f"indent-docstring-block@{a_}-{b_}+{k_}", "transformed": t}, a2, b2,
                              f"indenting the doc string block at lines {a_}–{b_} changed more than columns: {first_diff(a2, b2)}")
+    # ---- theorem-driven tie (Props/C16Doc3 + C16Doc3Tie): the model driver evaluates the HYPOTHESES of
+    # `C16_blank_line_text` / `C16_indent_document_check` (op `layoutok`); wherever they hold, the
+    # implementation's outcome on the transformed text must be EXACTLY the renamed outcome of the original —
+    # accepted or rejected documents, both error modes, every location and message prefix
+    def outcome(src_, stop_):
+        o_ = impl.parse(src_, stop_)
+        return {k_: v_ for k_, v_ in o_.items() if k_ in ("ok", "errors", "crash", "composite")}
+
+    def rename(x, fl, fc):
+        def g(v):
+            if isinstance(v, dict):
+                d_ = {}
+                for k_, w_ in v.items():
+                    if k_ == "location" and isinstance(w_, dict):
+                        d_[k_] = {"line": fl(w_["line"]), **({"column": fc(w_["line"], w_["column"])} if w_.get("column") is not None else {})}
+                    else:
+                        d_[k_] = g(w_)
+                if "message" in d_ and "location" in v and isinstance(v["message"], str):
+                    m_ = re.match(r"^\((\d+):(\d+)\): ", v["message"])
+                    if m_:
+                        l0, c0 = int(m_.group(1)), int(m_.group(2))
+                        d_["message"] = f"({fl(l0)}:{fc(l0, c0) if c0 else 0}): " + v["message"][m_.end():]
+                return d_
+            if isinstance(v, list):
+                return [g(w_) for w_ in v]
+            return v
+        return g(x)
+
+    tie_docs = explicit + [d_ for d_ in docs[len(explicit):] if len(d_) < 3000 and not impl.is_existing_path(d_)][: ctx.n(120, 1500)]
+    tie_docs += ["Feature: f\n  Scenario: s\n    Given a\n  oops\n    | a |\n    | a | b |\n  @a b\n  Scenario: t\nFeature: again\n",
+                 "@x y\nFeature: f\n  desc\n\n  more\n  Background:\n    * s\n      \"\"\"\n\n      \"\"\"\n"]
+    reqs, meta_ = [], []
+    for src in tie_docs:
+        for stop_ in (False, True):
+            ls_ = src.split("\n")
+            phys = [x + "\n" for x in ls_[:-1]] + ([ls_[-1]] if ls_[-1] else [])
+            # an indented variant: every line whose first non-blank character suggests a structural line gets 1–3 blanks more
+            ind = []
+            for x in phys:
+                st_ = x.lstrip()
+                ind.append((rng.choice([" ", "  ", "\t ", "\u00a0 "]) if st_ and st_[0] not in "#\"`" and rng.random() < 0.5 else "") + x)
+            reqs.append(driver.request("layoutok", stop_, "en", src, "".join(ind)))
+            meta_.append((src, stop_, phys, ind))
+    outs_ = driver.batch(reqs) if reqs else []
+    n_blank = n_ind = 0
+    for (src, stop_, phys, ind), m_ in zip(meta_, outs_):
+        base_o = outcome(src, stop_)
+        ks = [k_ for k_ in m_.get("blank", []) if k_ < len(phys) or src.endswith("\n") or not src]
+        if src not in explicit:
+            rng.shuffle(ks)
+            ks = ks[: ctx.n(3, 8)]
+        for k_ in ks:
+            t = "".join(phys[:k_]) + rng.choice(["\n", "  \n", "\t\n", " \u00a0\r\n"]) + "".join(phys[k_:])
+            want = rename(base_o, lambda l: l + 1 if l > k_ else l, lambda l, c: c)
+            got = outcome(t, stop_)
+            n_blank += 1
+            if got != want:
+                res.fail("metamorphic", {"source": src, "stop": stop_, "transform": f"theorem:blank-line-after-{k_}-lines", "transformed": t}, got, want,
+                         f"C16_blank_line_text applies (the model reads a blank line as Empty after {k_} lines) but the implementation's outcome "
+                         f"is not the original with line numbers > {k_} moved down by one: {first_diff(got, want)}")
+        if m_.get("indent"):
+            t = "".join(ind)
+            w_ = [len(a_) - len(b_) for a_, b_ in zip(ind, phys)]
+            want = rename(base_o, lambda l: l, lambda l, c: c + (w_[l - 1] if 0 < l <= len(w_) else 0))
+            got = outcome(t, stop_)
+            n_ind += 1
+            if got != want:
+                res.fail("metamorphic", {"source": src, "stop": stop_, "transform": "theorem:indent", "transformed": t}, got, want,
+                         "C16_indent_document_check applies (every moved line was built as a keyword / step / tag / row / blank line) but the "
+                         f"implementation's outcome is not the original with the columns of the moved lines shifted: {first_diff(got, want)}")
+    res.stats["theorem_driven_blank_insertions"] = n_blank
+    res.stats["theorem_driven_indentations"] = n_ind
     # file loading: source_event reads the text unchanged; TokenScanner(path) == text for LF/CRLF documents
     d = os.path.join(ctx.scratch.dir, "files")
     os.makedirs(d, exist_ok=True)
@@ -1957,7 +2032,7 @@ PROPS = {
                 rule=GEN_RULE + "both error modes; all line-kind sequences ≤ L for error positions; non-trivial = rejected"),
     "C15": dict(modules=["C15"], run=run_C15, exhaustive=True,
                 rule="all ordered pairs (thorough: triples) of 12 state-perturbing documents through one Parser+TokenMatcher, sampled longer histories, random schedules of 2–3 concurrent parses gated at TokenScanner.read; non-trivial = any"),
-    "C16": dict(modules=["C16", "C16Doc", "C16Doc2"], run=run_C16, rule=GEN_RULE + "× {CRLF, final newline, trailing blanks, indentation, blank line, comment line} at sampled admissible positions; file loading; non-trivial = any"),
+    "C16": dict(modules=["C16", "C16Doc", "C16Doc2", "C16Doc3", "C16Doc3Tie"], run=run_C16, rule=GEN_RULE + "× {CRLF, final newline, trailing blanks, indentation, blank line, comment line} at sampled admissible positions; file loading; non-trivial = any"),
     "C17": dict(modules=["C17"], run=run_C17, rule="sequences of 1–3 sources × 8 option combinations through one GherkinEvents; non-trivial = at least one envelope"),
     "C18": dict(modules=["C18", "C18Order", "C18Pure"], run=run_C18, translators=["parser_table"], exhaustive=True,
                 rule="all tag/comment/blank runs ≤ L before Examples/Scenario/Rule/unexpected lines as real text, sampled longer arrangements, corpus token listings; non-trivial = any"),
